@@ -161,6 +161,50 @@ def check_group_pair(arg):
     return fails, 1
 
 
+def check_group_random(seed):
+    """seeded groups whose members have different prefix lengths, anywhere in the address space, against single networks:
+    crafted near misses (the leading bits of one member read at another member's length), true sub-networks, random ones"""
+    import random
+    import ipaddress
+    import cisco_acl
+    rnd = random.Random(seed)
+    fails, done = [], 0
+    for _ in range(40):
+        lens = rnd.sample(range(4, 31), rnd.randint(2, 3))
+        members = []
+        for l in lens:
+            a = rnd.getrandbits(32) & (0xFFFFFFFF << (32 - l)) & 0xFFFFFFFF
+            members.append(ipaddress.IPv4Network((a, l)))
+        bottoms = []
+        for m in members:
+            for n in members:
+                if n.prefixlen != m.prefixlen:
+                    bits = int(m.network_address) >> (32 - m.prefixlen)
+                    l2 = n.prefixlen
+                    if bits < (1 << l2):
+                        bottoms.append(ipaddress.IPv4Network((bits << (32 - l2), l2)))            # m's bits read as a /l2
+                    bottoms.append(ipaddress.IPv4Network(((int(m.network_address) >> (32 - min(l2, m.prefixlen))) << (32 - min(l2, m.prefixlen)), min(l2, m.prefixlen))))
+            sub_l = min(32, m.prefixlen + rnd.randint(0, 3))
+            bottoms.append(ipaddress.IPv4Network((int(m.network_address) | (rnd.getrandbits(32 - m.prefixlen) >> (32 - sub_l) << (32 - sub_l) if m.prefixlen < 32 else 0), sub_l)))
+            bottoms.append(ipaddress.IPv4Network((int(m.network_address), 32)))
+        bottoms.append(ipaddress.IPv4Network((rnd.getrandbits(32), 32)))
+        top = cisco_acl.Address("addrgroup T", platform="nxos")
+        top.items = [cisco_acl.Address(str(m), platform="nxos") for m in members]
+        for b in bottoms:
+            done += 1
+            want = any(b.subnet_of(m) for m in members)
+            got = cisco_acl.Address(str(b), platform="nxos").subnet_of(top)
+            if got != want:
+                fails.append(dict(key=f"bounded/Address.subnet_of:group:{'wrong-yes' if got else 'missed'}:mixed-lengths",
+                                  what=f"{b} in group {[str(m) for m in members]}: subnet_of says {got}, containment in one member is {want}",
+                                  inputs=dict(bottom=str(b), group=[str(m) for m in members]),
+                                  cmd=("import sys; sys.path.insert(0, 'props'); import C13\n"
+                                       f"fails, _ = C13.check_group_random({seed!r})\nprint([f['what'] for f in fails][:3]); sys.exit(1 if fails else 0)\n")))
+                if len(fails) > 3:
+                    return fails, done
+    return fails, done
+
+
 def main(chk):
     chk.prove(["c_helpers", "c_shadow", "c_address"])
     chk.lemmas(lemmas())
@@ -183,6 +227,16 @@ def main(chk):
                 viol += 1
                 chk.finding(f["key"], f["what"], inputs=f["inputs"], cmd=f.get("cmd"), key=f["key"])
         chk.add_bounded(name, len(cases), len(cases), bound, viol, time.time() - t0, [list(cases[5])], exhaustive=True)
+    t0 = time.time()
+    seeds = [chk.seed * 1000 + i for i in range(16 if chk.tier == "quick" else 160)]
+    res = pmap(check_group_random, seeds)
+    viol = 0
+    for fails, _ in res:
+        for f in fails:
+            viol += 1
+            chk.finding(f["key"], f["what"], inputs=f["inputs"], cmd=f.get("cmd"), key=f["key"])
+    chk.add_bounded("single networks against groups whose members have different prefix lengths (crafted near misses, sub-networks, hosts)", sum(d for _, d in res),
+                    sum(d for _, d in res), f"{len(seeds)} x 40 seeded groups of 2..3 members with distinct prefix lengths 4..30", viol, time.time() - t0, [seeds[0]], exhaustive=False)
     chk.assumptions += [
         "ipaddress.IPv4Network.subnet_of == prefix containment (L13.bits.* are stated over that definition)",
         "AddressBase.ipnets is verified structurally (single network / the wildcard's networks / union over group members); which networks a wildcard has is C05",
